@@ -9,7 +9,16 @@ ALPHABETS = ('plain', 'digits', 'keyword', 'at', 'long')
 KEYWORD_PREFIXES = ('input', 'INPUT', 'output', 'OUTPUT', 'vdd', 'buff', 'not', 'Input_', 'and')
 
 
-def make_label(rng: random.Random, alphabet: str, k: int, taken) -> str:
+DERIVED_SUFFIXES = ('_0', '_1', '_2', '_3', '_n', '_not', '.0', '.1', '_', '_1_1')
+
+
+def make_label(rng: random.Random, alphabet: str, k: int, taken, prefix: str = '') -> str:
+    if alphabet != 'digits' and taken and rng.random() < 0.12:
+        # a label derived from an existing one, the way tools name helper gates: <label>_1, <label>_n, <label>.0 ...
+        base = rng.choice(sorted(taken))
+        for suf in rng.sample(DERIVED_SUFFIXES, len(DERIVED_SUFFIXES)):
+            if base + suf not in taken:
+                return base + suf
     for attempt in range(50):
         if alphabet == 'digits':
             lab = str(k + attempt * 100)
@@ -23,8 +32,8 @@ def make_label(rng: random.Random, alphabet: str, k: int, taken) -> str:
             lab = rng.choice('abcdefgh') + str(k)
         if attempt:
             lab += '_' * attempt
-        if lab not in taken:
-            return lab
+        if prefix + lab not in taken:
+            return prefix + lab
     raise RuntimeError('label space exhausted')
 
 
@@ -65,9 +74,9 @@ def random_net(
     gates = {}
     inputs = []
     for i in range(n_inputs):
-        lab = prefix + (str(i) if alphabet in ('plain', 'digits') else make_label(rng, alphabet, i, gates))
+        lab = prefix + str(i) if alphabet in ('plain', 'digits') else make_label(rng, alphabet, i, gates, prefix)
         if lab in gates:
-            lab = prefix + make_label(rng, 'plain', i + 1000, gates)
+            lab = make_label(rng, 'plain', i + 1000, gates, prefix)
         gates[lab] = ('INPUT', ())
         inputs.append(lab)
     labels = list(inputs)
@@ -75,7 +84,7 @@ def random_net(
         t = pick_type(rng, types, len(labels))
         if t is None:
             break
-        lab = prefix + make_label(rng, alphabet if alphabet != 'digits' else 'plain', j, gates)
+        lab = make_label(rng, alphabet if alphabet != 'digits' else 'plain', j, gates, prefix)
         pool = labels
         if locality and len(labels) > 4 and rng.random() < locality:
             pool = labels[-4:]
